@@ -232,10 +232,16 @@ package cputensor
 //@   ensures[C06] o != nil && sameShape(o, t)
 //@   ensures[C06] forallJ(J, imp(inb(o, J), el(o, J) == ite(inBox(J, index, u), el(u, subFrom(J, index)), el(t, J))))
 
+// dataAt walks down the nested data along a (possibly partial) multi-index: after i steps the current node is
+// well-formed for dims[i:] and every leaf below it is the leaf of the whole tree at the index extended by the path
 //@ func CPUTensor.dataAt
-//@   requires len(index) == rank(t) && forall(k, 0, len(index), 0 <= index[k] && index[k] < dim(t, k))
-//@   assumed L2 walk down the nested []any with unchecked type assertions; bounded stand-in: rac TestAt
-//@   ensures data == boxReal(el(t, idx(index)))
+//@   requires published(t) && len(index) <= rank(t) && forall(k, 0, len(index), 0 <= index[k] && index[k] < dim(t, k))
+//@   uses dimsLink, dataLink
+//@   ensures[C06] WF(data, arrOf(t.dims), len(index), len(t.dims))
+//@   ensures[C06] forallJ(J, imp(forall(k, 0, len(index), J[k] == index[k]), leafv(data, J, len(index)) == leafv(t.data, J, 0)))
+//@   ensures[C06] imp(len(index) == rank(t), data == mkF(el(t, idx(index))))
+//@   loop 0 invariant WF(data, arrOf(t.dims), _i0, len(t.dims))
+//@   loop 0 invariant forallJ(J, imp(forall(k, 0, _i0, J[k] == index[k]), leafv(data, J, _i0) == leafv(t.data, J, 0)))
 
 /* ---------------- shape_modifiers.go ---------------- */
 
@@ -513,3 +519,38 @@ package cputensor
 // shape, and the result keeps that shape
 //@ lemma unsqRedCompat: forallT(u, forallT(m, forallT(x, forallT(a, forallI(d, imp(unsqShape(u, m, d) && redShape(m, x, d) && 0 <= d && d < rank(x) && sameShape(a, x), bcompat(a, u)))))))
 //@ lemma unsqRedVia: forallT(o, forallT(u, forallT(m, forallT(x, forallT(a, forallI(d, imp(unsqShape(u, m, d) && redShape(m, x, d) && 0 <= d && d < rank(x) && sameShape(a, x) && bshape(o, a, u), sameShape(o, x))))))))
+
+/* ---------------- L2: element generators and initWith.fill (DESIGN.md 3.3, appendix A.5) ---------------- */
+
+//@ define validUpTo(J, S, k) := forall(j, 0, k, 0 <= J[j] && J[j] < S[j])
+//@ define zeroFrom(J, k, n) := forall(j, k, n, J[j] == 0)
+//@ define sameOutside(A, B, n) := forallI(j, imp(j < 0 || j >= n, A[j] == B[j]))
+// odoK(A, B, S, k): B is the successor of A as a k-digit odometer with digit ranges S (last digit fastest)
+//@ predicate allMax(J Idx, S Idx, j Int, k Int) := forall(m, j+1, k, J[m] == S[m] - 1)
+//@ predicate odoK(A Idx, B Idx, S Idx, k Int) := forall(j, 0, k, B[j] == ite(allMax(A, S, j, k), ite(A[j] < S[j] - 1, A[j] + 1, 0), A[j]))
+// Filled(f, d, S, k, n, P): the sub-tree d at level k, reached by the path P[0..k), holds at every leaf path Q the
+// element genAt(f, Q) of the generator f
+//@ predicate Filled(f Fn, d Data, S Idx, k Int, n Int, P Idx) := ite(k >= n, d == genAt(f, P), isS(d) && slen(d) == S[k] && forall(i, 0, S[k], Filled(f, child(d, i), S, k+1, n, upd(P, k, i))))
+
+// The protocol of an element generator: called at abstract index genJ it returns the element of that index; the ghost
+// index then advances to its odometer successor (ghost step of the protocol).
+//@ abstract initializerFunc() (v any)
+//@   modifies genJ
+//@   requires validUpTo(genJ, genShape(self), genRank(self))
+//@   ensures v == genAt(self, old(genJ))
+//@   ensures odoK(old(genJ), genJ, genShape(self), genRank(self)) && sameOutside(old(genJ), genJ, genRank(self)) @ghost
+
+// fill at level k = offOf(dims): on entry the generator stands at a path prefix followed by zeros; on exit the sub-tree is
+// filled with the generator's elements in row-major order and the generator's first k digits have advanced by one
+//@ func CPUTensor.initWith#0
+//@   requires data != nil && initFunc != nil && forall(k, 0, len(dims), dims[k] >= 1)
+//@   requires endOf(dims) == genRank(initFunc) && sameOn(arrOf(dims), genShape(initFunc), 0, endOf(dims))
+//@   requires validUpTo(genJ, genShape(initFunc), offOf(dims)) && zeroFrom(genJ, offOf(dims), endOf(dims))
+//@   modifies *data, genJ
+//@   ensures zeroFrom(genJ, offOf(dims), endOf(dims)) && sameOutside(old(genJ), genJ, endOf(dims))
+//@   ensures odoK(old(genJ), genJ, genShape(initFunc), offOf(dims))
+//@   ensures Filled(initFunc, *data, genShape(initFunc), offOf(dims), endOf(dims), old(genJ))
+//@   loop 0 invariant 0 <= i && i <= len(rows) && len(rows) == genShape(initFunc)[offOf(dims) - 1] && sameOutside(old(genJ), genJ, endOf(dims))
+//@   loop 0 invariant imp(i < len(rows), genJ == upd(old(genJ), offOf(dims) - 1, i))
+//@   loop 0 invariant imp(i == len(rows), zeroFrom(genJ, offOf(dims) - 1, endOf(dims)) && odoK(old(genJ), genJ, genShape(initFunc), offOf(dims) - 1))
+//@   loop 0 invariant forall(j, 0, i, Filled(initFunc, rows[j], genShape(initFunc), offOf(dims), endOf(dims), upd(old(genJ), offOf(dims) - 1, j)))
